@@ -147,6 +147,8 @@ def run(spec, ctx):
                     finally:
                         if closer is not None:
                             closer.close()
+        if not failed:
+            ctx.remember("entry-points", lambda text=text, doc=doc: (repr([canon(v) for v in jsonpath.findall(text, doc)]), repr(recs(jsonpath.compile(text).finditer(doc)))), limit=150)
         if not failed and r.random() < 0.5:
             # lazy entry points of ONE compiled object left half-consumed while another evaluation runs:
             # finditer/query must still list what findall lists
